@@ -368,6 +368,27 @@ def prop_index(case):
             f"index {i} (axis value {axis[i]!r}): t={times[j[0]]!r} col={j[1]} got={float(raw[i][j])!r} ref={float(refs[i]['want'][j])!r} err/tol={r:.3g}; "
             f"effective centres={[float(m) for m in mus[i]]} widths={[float(s) for s in sgs[i]]}"
             + "".join(f"; matches index {o}" for o in range(len(axis)) if o != i and worst(raw[i], refs[o]["want"], refs[o]["tol"])[0] <= 1)))
+    # a refused evaluation must leave no trace: after an evaluation that the code rejects half-way (a shift list that is too
+    # short for the global axis, or a non-finite rate) the same evaluation is bit-identical
+    import copy as _copy
+
+    refused = []
+    if irf.get("shift") is not None and len(irf["shift"]) >= 2:
+        bad = _copy.deepcopy(case)
+        bad["irf"]["shift"] = bad["irf"]["shift"][:-1]
+        try:
+            call_matrix(bad, False, "index.refused")
+        except Exception:  # noqa: BLE001
+            refused.append("short_shift_list")
+    bad = _copy.deepcopy(case)
+    bad["mc"]["rates"] = [float("nan")] + list(bad["mc"]["rates"][1:])
+    try:
+        call_matrix(bad, False, "index.refused")
+    except Exception:  # noqa: BLE001
+        refused.append("nan_rate")
+    _, _, labels2, raw2 = call_matrix(case, False, "index.call_after_refused_evaluation")
+    check(labels2 == labels and np.array_equal(raw, raw2, equal_nan=True), "index.depends_on_an_earlier_refused_evaluation",
+          lambda: f"after {refused}: max diff {np.nanmax(np.abs(raw - raw2)) if raw.shape == raw2.shape else 'shape'}")
     # (b) metamorphic: the index-independent matrix of a plain multi-Gaussian IRF with exactly these values
     for i in range(len(axis)):
         _, _, _, tw = call_matrix(case, False, "index.twin_call", twin_irf(irf, mus[i], sgs[i]))
